@@ -364,7 +364,7 @@ def check_history(rows, ops, bait_strand=None):
         if k >= len(objs):
             continue
         obj, held = objs[k]
-        ctx = f"step {n + 1} of the history {ops} on a {'scaffold' if bait_strand is None else 'overlap result (' + BAIT_WORD[bait_strand] + ')'} with rows {specs}: "
+        ctx = f"step {n + 1} of the history {ops} on {'a scaffold' if bait_strand is None else 'an overlap result (' + BAIT_WORD[bait_strand] + ')'} with rows {specs}: "
         msgs = []
         if op[0] == "reverse":
             is_ovr = isinstance(obj, OverlapResult)
@@ -670,11 +670,12 @@ def run(tier, seed, **opts):
         if col.full:
             break
     n_random_hist = 400 if quick else 30000
+    rng_h = random.Random(seed * 1_000_003 + 14)  # a generator of their own: the streams below do not depend on the histories
     for k in range(n_random_hist):
-        rows = [rng.choice(POOL) for _ in range(rng.randint(0, 4))]
+        rows = [rng_h.choice(POOL) for _ in range(rng_h.randint(0, 4))]
         overlap = k % 3 == 0
-        bait_strand = rng.choice((-1, -1, 1, 0)) if overlap else None
-        ops = random_history(rng, rng.randint(3, 10), overlap)
+        bait_strand = rng_h.choice((-1, -1, 1, 0)) if overlap else None
+        ops = random_history(rng_h, rng_h.randint(3, 10), overlap)
         inp = {"kind": "history", "rows": rows, "ops": ops, "bait_strand": bait_strand}
         msgs = check_history(rows, ops, bait_strand)
         if msgs:
